@@ -6,6 +6,7 @@ import (
 	"pgregory.net/rapid"
 
 	"verif/lib/ev"
+	"verif/lib/sched"
 )
 
 // memoryOracle checks (strict worlds) that the store memory equals what the
@@ -33,6 +34,7 @@ func (w *World) memoryOracle() {
 func TestC06(t *testing.T) {
 	st := ev.Get("C06", "TestC06")
 	rapid.Check(t, func(t *rapid.T) {
+		sched.SeedRand(t)
 		cfg := genCfg(t, -1, false)
 		w := NewWorld(t, cfg, st)
 		w.Strict = true
